@@ -86,6 +86,16 @@ def main():
             buf = ByteBuf()
             o.encode(buf)
             out['hex'] = bytes(buf.data).hex()
+        elif req['op'] == 'roundtrip':
+            k, cls = find_class(mod, req['class'])
+            o = cls()
+            data = bytes.fromhex(req['data'])
+            buf = ByteBuf(data)
+            o.decode(buf)
+            out['rest'] = len(data) - buf.read_index
+            w = ByteBuf()
+            o.encode(w)
+            out['hex'] = bytes(w.data).hex()
         else:
             k, cls = find_class(mod, req['class'])
             o = cls()
